@@ -288,6 +288,9 @@ class NotOperator():
     def evalExpression(self, env):
         return not self.op.evalExpression(env)
 
+    def evalExpressionToString(self, env):
+        raise ParseError("Bad syntax: operator '!' in string context")
+
 class BinaryBoolOperator():
     __slots__ = ('op', 'left', 'right')
 
@@ -307,6 +310,9 @@ class BinaryBoolOperator():
     def evalExpression(self, env):
         return OPS[self.op](self.left.evalExpression(env),
                             self.right.evalExpression(env))
+
+    def evalExpressionToString(self, env):
+        raise ParseError("Bad syntax: operator '{}' in string context".format(self.op))
 
 class StringLiteral():
     __slots__ = ('literal', 'subst')
@@ -377,6 +383,9 @@ class BinaryStrOperator():
     def evalExpression(self, env):
         return OPS[self.op](self.left.evalExpressionToString(env),
                             self.right.evalExpressionToString(env))
+
+    def evalExpressionToString(self, env):
+        raise ParseError("Bad syntax: operator '{}' in string context".format(self.op))
 
 class IfExpressionParser:
     __instance = None
